@@ -63,6 +63,14 @@ CHECKS = {
     note="Bound: fields walked one at a time (not the full cross product) except x86 Mod x RM; quick uses 4 prefix sets and the reduced tail menu; thorough adds all 65536 two-byte prefixes per mode. "
          "~500 genuine defects of the pinned tree are listed in KNOWN_FINDINGS.json (signature = ISA, mode, phase, hook/mnemonic, exception type @ innermost function).",
     design="DESIGN.md section 3, C17"),
+ "C18": dict(
+    category="model_checking",
+    technique="explicit-state BFS over all block-insertion histories into cfg.graph (state = support/overlay/edges + inserted set) and exhaustive enumeration of sweep start addresses per ISA against an independent fetch loop and a maximal-run block model",
+    text="(b) From one instruction stream every history of <=3 (thorough 4) insertions of contiguous runs is replayed on a fresh real graph; after each insertion the main support must hold pairwise-disjoint blocks whose extents equal their lengths, "
+         "containing every inserted instruction exactly once, overlay unused, and a fall-through edge at every split. (a) For 14 ISAs and every start address of a 64-byte window of a synthetic code region: sweep addresses, maximal-run blocks "
+         "(delay slots included), support/raw bytes, slicing at every pair of boundaries, cutting at every boundary.",
+    note="Known findings (15 signatures = relation of the inserted run to existing nodes x failure mode) listed in KNOWN_FINDINGS.json; histories extending a failing history are shadowed.",
+    design="DESIGN.md section 3, C18"),
  "C19": dict(
     category="model_checking",
     technique="bounded exhaustive enumeration of map pairs x configurations on the real merge(); per-location alternative-set membership via independent walker, plus composition with concrete states",
